@@ -72,6 +72,10 @@ type DirIn struct {
 	Existing []uint32 `json:"existing"` // modes of the path components that exist already, outermost first
 	Missing  int      `json:"missing"`  // number of further components that do not exist
 	Disabled bool     `json:"disabled"` // WithDisabledExternalConnections
+	// Order: where the disabling option stands among the options given to New: "" = last,
+	// "first" = before every other option, "mid" = between the socket path and the plugin
+	// paths, "twice" = first and last. Options are independent settings: the order must not matter.
+	Order string `json:"order"`
 }
 type DirObs struct {
 	Start   string   `json:"start"`  // ok | error
@@ -315,12 +319,20 @@ func runDir(in DirIn, scratch string) (obs DirObs) {
 		comps = append(comps, path)
 	}
 	sock := filepath.Join(path, "n.sock")
-	opts := []adaptation.Option{adaptation.WithSocketPath(sock),
-		adaptation.WithPluginPath(filepath.Join(base, "no-plugins")),
-		adaptation.WithPluginConfigPath(filepath.Join(base, "no-conf"))}
-	if in.Disabled {
-		opts = append(opts, adaptation.WithDisabledExternalConnections())
+	var opts []adaptation.Option
+	dis := func(when ...string) {
+		for _, w := range when {
+			if in.Disabled && in.Order == w {
+				opts = append(opts, adaptation.WithDisabledExternalConnections())
+			}
+		}
 	}
+	dis("first", "twice")
+	opts = append(opts, adaptation.WithSocketPath(sock))
+	dis("mid")
+	opts = append(opts, adaptation.WithPluginPath(filepath.Join(base, "no-plugins")),
+		adaptation.WithPluginConfigPath(filepath.Join(base, "no-conf")))
+	dis("", "twice")
 	r, err := adaptation.New("verif", "0.0", syncFn, updateFn, opts...)
 	if err != nil {
 		obs.Start, obs.Msg = "error", "harness:"+err.Error()
@@ -660,8 +672,10 @@ func genDirs(r *rand.Rand, thorough bool) []DirIn {
 	}
 	// listening disabled: nothing appears
 	for _, u := range []uint32{0o022, 0o000} {
-		out = append(out, DirIn{Kind: "dir", Umask: u, Existing: []uint32{}, Missing: 2, Disabled: true})
-		out = append(out, DirIn{Kind: "dir", Umask: u, Existing: []uint32{0o755}, Missing: 0, Disabled: true})
+		for _, ord := range []string{"", "first", "mid", "twice"} {
+			out = append(out, DirIn{Kind: "dir", Umask: u, Existing: []uint32{}, Missing: 2, Disabled: true, Order: ord})
+			out = append(out, DirIn{Kind: "dir", Umask: u, Existing: []uint32{0o755}, Missing: 0, Disabled: true, Order: ord})
+		}
 	}
 	n := 6
 	if thorough {
@@ -669,6 +683,9 @@ func genDirs(r *rand.Rand, thorough bool) []DirIn {
 	}
 	for i := 0; i < n; i++ {
 		d := DirIn{Kind: "dir", Umask: uint32(r.Intn(0o1000)), Existing: []uint32{}, Missing: r.Intn(4), Disabled: r.Intn(8) == 0}
+		if d.Disabled {
+			d.Order = []string{"", "first", "mid", "twice"}[r.Intn(4)]
+		}
 		for j := r.Intn(3); j > 0; j-- {
 			d.Existing = append(d.Existing, uint32(r.Intn(0o1000))|0o700)
 		}
